@@ -488,7 +488,8 @@ def NodeOK (h : Heap) (file : File) (q : Path) (g : Grp) : Prop :=
 
 structure FileOK (h : Heap) (file : File) : Prop where
   names : NamesOKG.NamesOKL file.groups
-  nodup : (srcs (Grp.nodes.nodesL [] file.groups)).Nodup
+  uniq : ∀ q1 g1 q2 g2, lookupGrp file.groups q1 = some g1 → lookupGrp file.groups q2 = some g2 → g1.isArr = true →
+    g2.isArr = true → g1.src = g2.src → q1 = q2
   node : ∀ q g, lookupGrp file.groups q = some g → g.isArr = true → NodeOK h file q g
 
 theorem NodeOK.of_tree {h : Heap} {file : File} {q : Path} {g : Grp}
@@ -549,7 +550,7 @@ theorem writeDS_ok (h : Heap) (hb : Below h) (d : DS) (lvl : Nat)
     simp only [List.nil_append] at hq
     subst hq
     exact ⟨g', hl, ha, hs⟩
-  refine ⟨w.names, w.nodup, ?_⟩
+  refine ⟨w.names, fun q1 g1 q2 g2 h1 h2 a1 a2 hs => path_of_src w.names w.nodup h1 h2 a1 a2 hs, ?_⟩
   intro q g hl ha
   have hm := nodes_of_lookup q groups [] g hl ha
   simp only [List.nil_append] at hm
